@@ -55,6 +55,10 @@ def prim (x : Ctx) : Prim → Ctx
   | .cancelRegisteredFutures =>
     { x with s := { x.s with caches := fun i => if hasVal i x.s.ids then (x.s.caches i).cancelFuts else x.s.caches i } }
   | .awaitTasks => { x with out := some .done }
+  | .superShutdown =>                         -- TaskManager.shutdown_task_manager: early return when already shut down
+    if x.s.shutdown then { x with out := some .done }
+    else { x with s := { x.s with shutdown := true, runReg := false,
+                                  caches := fun i => { x.s.caches i with task := none } }, out := some .done }
 
 /-- run a method body: primitives in source order until the method returns or raises -/
 def runPrims (ops : List Prim) (x : Ctx) : Ctx :=
@@ -104,6 +108,10 @@ def fireAbortViaSource (s : St) : St × Reply :=
 
 def clearViaSource (s : St) : St × Reply :=
   result (runPrims Gen.clearOps { s := s, c := 0, key := (0, 0) })
+
+def tmShutdownViaSource (s : St) : St × Reply :=
+  if s.running.isSome then (s, .refused)
+  else result (runPrims Gen.tmShutdownOps { s := s, c := 0, key := (0, 0) })
 
 def shutdownViaSource (s : St) : St × Reply :=
   if s.running.isSome then (s, .refused)
